@@ -589,9 +589,18 @@ pub fn check_text(ctx: &mut Ctx, source: &str, text: &str) -> Option<usize> {
             return Some(n.max(1));
         }
     };
+    audit(ctx, source, &schema, json!({"source": source, "text": text}), fnv_str(text));
+    if ctx.evals % 256 == 1 {
+        ctx.sample(|| json!({"source": source, "text": clip(text, 300)}));
+    }
+    Some(0)
+}
+
+/// All invariants on one accepted schema.
+fn audit(ctx: &mut Ctx, source: &str, schema: &Valid<Schema>, case: Value, key: u64) {
     ctx.count("accepted_schemas_checked", 1);
     ctx.class("source", source.split('/').next().unwrap_or(""));
-    let (broken, st) = check_schema(&schema);
+    let (broken, st) = check_schema(schema);
     for c in &st.exercised {
         ctx.class("clause", &format!("{c}:exercised"));
     }
@@ -601,7 +610,7 @@ pub fn check_text(ctx: &mut Ctx, source: &str, text: &str) -> Option<usize> {
     ctx.count("user_defined_names_checked", st.user_names);
     ctx.class("builtin_scalars_in_type_map", &format!("{}", st.builtin_scalars_present));
     if st.exercised.len() >= 5 {
-        ctx.nontrivial_hash(fnv_str(text));
+        ctx.nontrivial_hash(key);
     }
     if st.implemented_fields > 0 {
         ctx.class("clause", "implementation:with-interface-fields");
@@ -615,13 +624,145 @@ pub fn check_text(ctx: &mut Ctx, source: &str, text: &str) -> Option<usize> {
         ctx.violation(
             format!("invariant|{}|{}", b.clause, b.class),
             format!("accepted schema breaks `{}`: {}", b.clause, b.detail),
-            json!({"source": source, "text": text}),
+            case.clone(),
         );
     }
-    if ctx.evals % 256 == 1 {
-        ctx.sample(|| json!({"source": source, "text": clip(text, 300), "clauses_exercised": st.exercised.iter().collect::<Vec<_>>()}));
+}
+
+// -------------------------------------------------------------------------------------------------
+// In-memory sessions: validate, take the schema back, edit it through the public API, validate again
+// -------------------------------------------------------------------------------------------------
+
+fn apply_edit(schema: &mut Schema, e: &Value) -> bool {
+    use apollo_compiler::schema::Component;
+    use apollo_compiler::{Name, Node};
+    let g = |k: &str| e.get(k).and_then(|v| v.as_str()).unwrap_or("");
+    let (Ok(ty), Ok(name)) = (Name::new(g("type")), Name::new(g("name"))) else { return false };
+    let scalar = Name::new(g("scalar")).unwrap_or_else(|_| apollo_compiler::name!("Int"));
+    let field = |name: &Name| FieldDefinition { description: None, name: name.clone(), arguments: vec![], ty: Type::Named(scalar.clone()), directives: Default::default() };
+    let input = |name: &Name| InputValueDefinition { description: None, name: name.clone(), ty: Node::new(Type::Named(scalar.clone())), default_value: None, directives: Default::default() };
+    match (g("op"), schema.types.get_mut(&ty)) {
+        ("add_field", Some(ExtendedType::Object(o))) => o.make_mut().fields.insert(name.clone(), Component::new(field(&name))).is_none(),
+        ("remove_field", Some(ExtendedType::Object(o))) => o.make_mut().fields.shift_remove(&name).is_some(),
+        ("add_argument", Some(ExtendedType::Object(o))) => {
+            let Ok(f) = Name::new(g("field")) else { return false };
+            match o.make_mut().fields.get_mut(&f) {
+                Some(fd) if !fd.arguments.iter().any(|a| a.name == name) => {
+                    fd.make_mut().arguments.push(Node::new(input(&name)));
+                    true
+                }
+                _ => false,
+            }
+        }
+        ("add_input_field", Some(ExtendedType::InputObject(o))) => o.make_mut().fields.insert(name.clone(), Component::new(input(&name))).is_none(),
+        _ => false,
     }
-    Some(0)
+}
+
+/// `rounds`: lists of edits; after each list the schema is validated again and, when accepted, audited.
+pub fn check_session(ctx: &mut Ctx, source: &str, text: &str, rounds: &[Vec<Value>]) {
+    ctx.eval();
+    let case = json!({"source": source, "text": text, "session": rounds});
+    ctx.inflight("C15", case.to_string().as_bytes());
+    let Some(Ok(mut valid)) = validate(text) else {
+        ctx.count("session_start_not_accepted", 1);
+        return;
+    };
+    ctx.count("sessions", 1);
+    for (ri, edits) in rounds.iter().enumerate() {
+        let r = rt::catch(move || {
+            let mut s = valid.into_inner();
+            let applied = edits.iter().filter(|e| apply_edit(&mut s, e)).count();
+            (applied, s.validate().map_err(|e| e.errors.len()))
+        });
+        match r {
+            Err(_) => {
+                ctx.count("apollo_panicked_skipped", 1);
+                return;
+            }
+            Ok((_, Err(_))) => {
+                ctx.count("session_rounds_rejected_by_apollo", 1);
+                return;
+            }
+            Ok((applied, Ok(v))) => {
+                ctx.count("session_rounds_accepted", 1);
+                ctx.count("session_edits_applied", applied as u64);
+                let before = ctx.has_class("builtin_scalars_in_type_map", "5");
+                audit(ctx, source, &v, case.clone(), fnv_str(&format!("{text}|{ri}|{}", json!(rounds))));
+                if ri > 0 || applied > 0 {
+                    ctx.class("session", "re-validated after API edits");
+                }
+                let _ = before;
+                valid = v;
+            }
+        }
+    }
+}
+
+/// Random rounds of edits for the schema `text` validates to.
+fn gen_session(rng: &mut Rng, text: &str) -> Option<Vec<Vec<Value>>> {
+    let valid = validate(text)?.ok()?;
+    let objects: Vec<String> = valid.types.iter().filter(|(_, t)| matches!(t, ExtendedType::Object(_)) && !t.is_built_in()).map(|(n, _)| n.to_string()).collect();
+    let inputs: Vec<String> = valid.types.iter().filter(|(_, t)| matches!(t, ExtendedType::InputObject(_))).map(|(n, _)| n.to_string()).collect();
+    if objects.is_empty() {
+        return None;
+    }
+    let mut present: Vec<&str> = BUILTIN_SCALAR_NAMES.iter().copied().filter(|n| valid.types.contains_key(*n)).collect();
+    let mut added: Vec<(String, String)> = Vec::new();
+    let mut rounds = Vec::new();
+    let mut k = 0;
+    for _ in 0..rng.range(1, 4) {
+        let mut edits = Vec::new();
+        if rng.chance(1, 3) {
+            // reference every built-in scalar that is not in the type map right now
+            for sc in BUILTIN_SCALAR_NAMES {
+                if !present.contains(sc) {
+                    k += 1;
+                    let ty = rng.pick(&objects).clone();
+                    edits.push(json!({"op": "add_field", "type": ty, "name": format!("vf{k}"), "scalar": sc}));
+                    added.push((ty, format!("vf{k}")));
+                    present.push(sc);
+                }
+            }
+        }
+        for _ in 0..rng.below(4) {
+            k += 1;
+            let sc = *rng.pick(BUILTIN_SCALAR_NAMES);
+            match rng.below(5) {
+                0 | 1 => {
+                    let ty = rng.pick(&objects).clone();
+                    edits.push(json!({"op": "add_field", "type": ty, "name": format!("vf{k}"), "scalar": sc}));
+                    added.push((ty, format!("vf{k}")));
+                    if !present.contains(&sc) {
+                        present.push(sc);
+                    }
+                }
+                2 if !added.is_empty() => {
+                    let (ty, f) = rng.pick(&added).clone();
+                    edits.push(json!({"op": "add_argument", "type": ty, "field": f, "name": format!("va{k}"), "scalar": sc}));
+                    if !present.contains(&sc) {
+                        present.push(sc);
+                    }
+                }
+                3 if !inputs.is_empty() => {
+                    edits.push(json!({"op": "add_input_field", "type": rng.pick(&inputs), "name": format!("vi{k}"), "scalar": sc}));
+                    if !present.contains(&sc) {
+                        present.push(sc);
+                    }
+                }
+                _ if !added.is_empty() => {
+                    let i = rng.below(added.len());
+                    let (ty, f) = added.remove(i);
+                    edits.push(json!({"op": "remove_field", "type": ty, "name": f}));
+                    // whether a scalar becomes unused is for validation to work out
+                    present = Vec::new();
+                }
+                _ => {}
+            }
+        }
+        rounds.push(edits);
+    }
+    Some(rounds)
 }
 
 // -------------------------------------------------------------------------------------------------
@@ -891,6 +1032,12 @@ pub fn run(ctx: &mut Ctx) {
     if ctx.shard == 0 {
         for (name, text) in REGRESSION_TEXTS {
             check_text(ctx, &format!("regression/{name}"), text);
+            let mut rng = Rng::new(fnv_str(name));
+            for _ in 0..8 {
+                if let Some(rounds) = gen_session(&mut rng, text) {
+                    check_session(ctx, "api-session", text, &rounds);
+                }
+            }
         }
         for (name, text) in c14::REGRESSION_TEXTS {
             check_text(ctx, &format!("regression/{name}"), text);
@@ -925,6 +1072,10 @@ pub fn run(ctx: &mut Ctx) {
             check_text(ctx, &format!("c14-workload-{label}"), &trivia);
             if matches!(e, Some(x) if x > 0) {
                 invalid.push((c.source.clone(), c.doc.clone()));
+            } else if e == Some(0) && rng.chance(1, 2) {
+                if let Some(rounds) = gen_session(&mut rng, &plain) {
+                    check_session(ctx, "api-session", &plain, &rounds);
+                }
             }
         }
         // hill climbing from the invalid ones
@@ -948,6 +1099,11 @@ pub fn replay(ctx: &mut Ctx, case: &Value) {
     let c = case.get("case").unwrap_or(case);
     if let Some(text) = c.get("text").and_then(|t| t.as_str()) {
         let source = c.get("source").and_then(|t| t.as_str()).unwrap_or("replay");
+        if let Some(rounds) = c.get("session").and_then(|r| r.as_array()) {
+            let rounds: Vec<Vec<Value>> = rounds.iter().map(|r| r.as_array().cloned().unwrap_or_default()).collect();
+            check_session(ctx, source, text, &rounds);
+            return;
+        }
         check_text(ctx, source, text);
     }
 }
